@@ -363,6 +363,8 @@ fn execute(scn: &BScn, property: &str) -> RunOutcome {
     // never played; excluded from the Ended clauses until the next reset / re-target
     let mut stale_ended = false;
     let mut chain_present = true;
+    // a key change made by the user that the selector has not acted on yet: (key, deadline)
+    let mut awaiting_user_key: Option<(Key, usize)> = None;
     // an Ended event naming the main entity was sent in the previous frame
     let mut ended_event_in_previous_frame = false;
     // the selector's `timelines` map as edited at run time (key -> index into cfg.tls)
@@ -742,7 +744,46 @@ fn execute(scn: &BScn, property: &str) -> RunOutcome {
         }
 
         // ---- re-target detection (selector acted on a key change in this frame) ---------------
-        let retargeted = cfg.selector && after.acted != before.acted;
+        // (a) the key the selector has acted on changed to another key; (b) a justified chain step
+        // that maps the key to itself - "the animator will be reset" - re-acts on the same key: seen
+        // as acted -> none -> acted when the chain system runs after the selection system, and as a
+        // restart within one frame when it runs before it. After a justified chain step the
+        // selector forgets the key it acted on until it acts again (acted = none).
+        let other_ended_in_this_frame = matches!(
+            (before.other, after.other),
+            (Some((sb, _, _)), Some((sa, _, _))) if sb != AnimationState::Ended && sa == AnimationState::Ended
+        );
+        let chain_step_possible = |key: Option<Key>| -> bool {
+            cfg.selector
+                && chain_present
+                && key.is_some()
+                && chain_lookup(key.unwrap()).is_some()
+                && before.acted == key
+                && before.state == AnimationState::Ended
+                && (ended_event_in_previous_frame || other_ended_in_this_frame)
+        };
+        let hook_retarget = cfg.selector && after.acted != before.acted && after.acted.is_some();
+        let self_loop_in_one_frame = !hook_retarget
+            && before.key.is_some()
+            && before.key == after.key
+            && after.acted == before.acted
+            && chain_step_possible(before.key)
+            && chain_lookup(before.key.unwrap()) == before.key
+            && (after.state != AnimationState::Ended || after.pos < before.pos);
+        if self_loop_in_one_frame {
+            out.count("probe.chain_self_loop_replayed_within_one_frame");
+        }
+        let retargeted = hook_retarget || self_loop_in_one_frame;
+        if check19 && cfg.selector && before.acted.is_some() && after.acted.is_none() && after.key.is_some() && !chain_step_possible(before.key) {
+            out.violation = Some(viol(
+                "C19",
+                "acted-key-forgotten-without-cause",
+                fi,
+                format!("frame {fi}: the selector forgot the key it had acted on ({:?}) although no chain step was due (state {:?}, key {:?}, chain present {chain_present})", before.acted, before.state, before.key),
+                "acted-forgotten".into(),
+            ));
+            break;
+        }
         if retargeted {
             out.count("probe.selector_retarget");
             let k = after.acted.unwrap();
@@ -1222,6 +1263,30 @@ fn execute(scn: &BScn, property: &str) -> RunOutcome {
                         "the chain does not map the active key to the new key"
                     };
                     fail!("C19", "chain-fired-without-cause", "frame {fi}: selector key changed {key_before} -> {key_after} inside the frame, but {why} (animator {state_base:?} -> {:?}, acted-on key {:?}, user changed key since the end: {user_changed_since_end}, chain {:?})", after.state, before.acted, cfg.chain);
+                }
+            }
+            // a chain entry k -> k: the step shows as a re-target onto the same key
+            if let Some(p) = &pending {
+                if p.from == p.to && retargeted && after.acted == Some(p.to) {
+                    out.count("probe.chain_self_loop_replayed");
+                    pending = None;
+                }
+            }
+            // 4b. a key change made by the user - the selector's key as the user saw it before
+            // the assignment differs from the key assigned - makes the animator play that key's
+            // timeline from its beginning, whatever the selector's own bookkeeping says about the
+            // key it acted on last (the previous key may be one the chain had just moved to and
+            // the selector never acted on)
+            if user_changed_key {
+                awaiting_user_key = Some((key_before, fi + LATENCY));
+            }
+            if let Some((k, deadline)) = awaiting_user_key {
+                if retargeted && after.acted == Some(k) {
+                    awaiting_user_key = None;
+                } else if key_after != k {
+                    awaiting_user_key = None;
+                } else if fi + 1 >= deadline {
+                    fail!("C19", "key-change-swallowed", "frame {fi}: the user changed the selector's key to {k} {LATENCY} frames ago, but the animator was never re-targeted to it (acted-on key {:?}, state {:?} at {:?}): it keeps whatever it played before instead of playing key {k}'s timeline from the beginning", after.acted, after.state, after.pos);
                 }
             }
             // 5. chain liveness
